@@ -56,7 +56,10 @@ func genDeepBundle(g *wireGen) *W {
 	depth := 3 + g.r.Intn(12)
 	switch {
 	case g.hint >= 9000:
-		depth = 300 + g.r.Intn(500)
+		// up to the deepest nesting a frame can hold (the reverse of fix F-C07-5 needs about 740
+		// levels to cross the time bound; with 300-800 levels a quick run crossed it only two or
+		// three times and the final matrix once not at all)
+		depth = 300 + g.r.Intn(2400)
 	case g.hint >= 2000:
 		depth = 60 + g.r.Intn(200)
 	case g.hint >= 300:
